@@ -758,6 +758,32 @@ func (i *Interp) selectScalar(a []Value, idx *Term, et types.Type) Value {
 	if len(a) > 512 {
 		return nil
 	}
+	// a table of constants becomes one lookup term (evaluated in O(1), cached by structure)
+	allConst := true
+	table := make([]uint64, len(a))
+	for k, v := range a {
+		switch x := v.(type) {
+		case int64:
+			table[k] = mask(w, uint64(x))
+		case bool:
+			if x {
+				table[k] = 1
+			}
+		default:
+			allConst = false
+		}
+		if !allConst {
+			break
+		}
+	}
+	if allConst && len(a) > 2 {
+		res := tt.Lut(idx, w, table)
+		if w == 0 {
+			return boolVal(res)
+		}
+		k, _ := intInfo(et)
+		return i.intVal(k, res)
+	}
 	idx64 := idx
 	res := i.toTerm(a[len(a)-1], w)
 	for k := len(a) - 2; k >= 0; k-- {
